@@ -738,6 +738,30 @@ func (sc *SpecCtx) call(x *SX) Val {
 	case "bytesEqual", "bytes.Equal":
 		need(2)
 		return sc.bytesEqual(sc.eval(args[0]), sc.eval(args[1]))
+	case "strings.Contains", "strings.HasPrefix", "strings.HasSuffix", "strings.Index", "substr":
+		// SMT string theory (needs `strings smt`); substr(s, lo, hi) is s[lo:hi]
+		if !vc.strSMT {
+			sc.fail(x, name+" needs 'strings smt'")
+		}
+		a := sc.eval(args[0])
+		b := sc.eval(args[1])
+		switch name {
+		case "strings.Contains":
+			need(2)
+			return Val{Ty: specBool, T: app(SBool, "str.contains", a.T, b.T)}
+		case "strings.HasPrefix":
+			need(2)
+			return Val{Ty: specBool, T: app(SBool, "str.prefixof", b.T, a.T)}
+		case "strings.HasSuffix":
+			need(2)
+			return Val{Ty: specBool, T: app(SBool, "str.suffixof", b.T, a.T)}
+		case "strings.Index":
+			need(2)
+			return Val{Ty: specInt, T: app(SInt, "str.indexof", a.T, b.T, intLit(0))}
+		}
+		need(3)
+		lo, hi := vc.toInt(b), vc.toInt(sc.eval(args[2]))
+		return Val{Ty: a.Ty, T: app("String", "str.substr", a.T, lo, sub(hi, lo))}
 	case "mapHas":
 		// mapHas(m, k): key k is present in map m
 		need(2)
